@@ -26,6 +26,8 @@ FIRST = {  # result of the FIRST run of my checks against the seed, recorded whe
     # wave 6 (ids -9, one change per agent, 35-minute budget): first run against the checks frozen at 5e970ee
     "C01-9": "missed", "C07-9": "missed", "C14-9": "other property only (C01.d2, C02.l, C03.h, C15.h)", "C15-9": "other property only (C02.h, C08.i, C09.d, C10.m, C17.f)", "C19-9": "missed",
     "C13-9": "missed",
+    # wave 7 (second batch of -9 ids, one change per agent, 11-minute budget): first run against the checks frozen at df99ac3
+    "C03-9": "caught", "C09-9": "caught", "C17-9": "caught", "C20-9": "caught",
 }
 ADDED = {"C01-2": "C01.d fresh-only cursor", "C02-2": "C09.d/C02.h owner re-arm protocol", "C04-1": "C04.b children-before-clear", "C04-2": "C04.g accessor family",
          "C05-2": "C05.e2 ring re-base", "C14-2": "C14.f unconditional owner stop", "C16-1": "C16.b2 conflating pending flag", "C16-2": "C16.h (= C17.a table)",
